@@ -464,6 +464,44 @@ func writePropertyShape(p *Program, lit *ast.FuncLit, comma types.Object, keyQuo
 		return true
 	})
 	*keyQuoted = quoted
+	// every call inside the closure must be one of: write(…), json.Marshal(name), encoder.Encode(v), conversions;
+	// the value must reach the output through the JSON encoder only
+	strayCall, elseIf := "", false
+	ast.Inspect(lit.Body, func(n ast.Node) bool {
+		switch x := n.(type) {
+		case *ast.IfStmt:
+			if be, ok := x.Cond.(*ast.BinaryExpr); ok && isNilIdent(be.Y) && identObj(info, be.X) == info.Defs[names[1]] {
+				if _, chained := x.Else.(*ast.IfStmt); chained {
+					elseIf = true
+				}
+			}
+		case *ast.CallExpr:
+			if tv, ok := info.Types[x.Fun]; ok && tv.IsType() {
+				return true
+			}
+			nm := calleeName(info, x)
+			switch nm {
+			case "encoding/json.Encoder.Encode", "encoding/json.Marshal":
+				return true
+			}
+			if id, ok := x.Fun.(*ast.Ident); ok {
+				if _, isVar := identObj(info, id).(*types.Var); isVar {
+					return true // the local write closure
+				}
+			}
+			if nm == "" {
+				nm = types.ExprString(x.Fun)
+			}
+			strayCall = nm
+		}
+		return true
+	})
+	if strayCall != "" {
+		return "writeProperty calls " + strayCall + ": a value can reach the output without going through the JSON encoder"
+	}
+	if elseIf {
+		return "writeProperty has more than the null / encoder alternatives for the value"
+	}
 	switch {
 	case !usesComma:
 		return "writeProperty does not prefix the member with the comma variable"
